@@ -531,7 +531,7 @@ fn main() {
                                  "two_unseeded_processes_differ": unseeded.0 != unseeded.1},
         "worlds": worlds.len(),
         "composed_worlds": composed_ok,
-        "composed_world_shape": "3 packages, 7 interfaces x (4 typedefs + 1 resource + 4-8 functions), 3 world-level typedefs, 6 world-level functions, 4 imports + 3 exports; 5 feature flavours",
+        "composed_world_shape": "3 packages, 7 interfaces x (4 typedefs + 5 resources + 4-8 functions), 3 world-level typedefs, 6 world-level functions, 4 imports + 3 exports; 5 feature flavours",
         "corpus_entries": corpus.len(),
         "backend_variants": bvs.len(),
         "configurations": bvs.iter().map(|b| json!({"label": b.label(), "args": b.args, "plus_world_derived_values_for_multi_valued_options": b.dynamic})).collect::<Vec<_>>(),
